@@ -867,6 +867,10 @@ def equal(a, b, seed=0, symbols_domain=None):
             vb = sp.N(b.subs(pt), 50)
         except Exception as e:
             return None, "cannot evaluate at probe point: %s" % e
+        if va.has(sp.nan, sp.zoo, sp.oo) or vb.has(sp.nan, sp.zoo, sp.oo):
+            if va.has(sp.nan, sp.zoo, sp.oo) != vb.has(sp.nan, sp.zoo, sp.oo):
+                return False, "one side is not finite at %s: %s vs %s" % ({str(k): str(v) for k, v in pt.items()}, va, vb)
+            continue
         d = abs(va - vb)
         scale = max(abs(va), abs(vb), 1)
         if d > scale * sp.Float("1e-30"):
